@@ -11,7 +11,7 @@ from ..rules.common import FlagSem, attr_chain, conjuncts, run_flags
 LEVEL = 'other'
 TECHNIQUE = ('static: cache-key dataflow rule, who-may-write/who-may-read ownership of the memo stores with checked '
              'gates and pruning predicates, effect (purity) analysis of everything reachable from the tracer, '
-             'flag-confinement rule')
+             'flag-confinement rule, control-dependence rule (memo settings gate only memo-store effects)')
 LEVEL_TEXT = ('Decides, for all paths: the memo key of a rule invocation is built from the invoked rule and the position '
               'after whitespace skipping; the memo stores are written only by the gated store, the initialiser and the two '
               'pruners (which never drop left-recursion guards), read only by the lookup whose result is returned or '
